@@ -167,7 +167,15 @@ def buckets(ctx, cr):
     if f:
         from engine import flow
         succ = [M.successors(b["term"]) for b in f["blocks"]]
-        evals = [(bi, t) for bi, t in M.iter_calls(f) if M.norm_path(t["fn"].get("path", "")).endswith("rules::eval::eval_rules_file")]
+        # the evaluation of one test input: the call of eval_rules_file, or of a helper of this module that makes it
+        EVK = "rules::eval::eval_rules_file"
+        evaluating = {EVK}
+        unit_ = flow.unit_functions(cr, STRUCT, ("commands::reporters::test::",), depth=2)
+        for _ in range(2):
+            for uk in unit_:
+                if uk != STRUCT and uk in cr.fns and any(t_["fn"].get("key") in evaluating for _b, t_ in M.iter_calls(cr.fns[uk])):
+                    evaluating.add(uk)
+        evals = [(bi, t) for bi, t in M.iter_calls(f) if t["fn"].get("key") in evaluating]
         inserts = set(bi for bi, t in M.iter_calls(f) if M.norm_path(t["fn"].get("path", "")).endswith("TestResult::insert_test_case"))
         nexts = [bi for bi, t in M.iter_calls(f) if M.norm_path(t["fn"].get("decl", "")) == "std::iter::Iterator::next"]
         if len(evals) != 1 or not inserts:
@@ -254,7 +262,7 @@ def grouping(ctx, cr):
             decl = M.norm_path(t["fn"].get("decl", ""))
             dty, _ = M.place_ty(cr, None, t["dest"], body) if t.get("dest") is not None else (None, None)
             into_map = dty is not None and (dty.adt_path() or "").endswith("IndexMap")
-            if p.endswith("IndexMap::insert") or p.endswith("IndexMap::insert_full") or ((decl in ("std::iter::Iterator::collect", "std::iter::FromIterator::from_iter")) and into_map) or (
+            if ((decl in ("std::iter::Iterator::collect", "std::iter::FromIterator::from_iter")) and into_map) or (
                     decl == "std::iter::Extend::extend" and t["args"] and "IndexMap" in (cr.ty_str(M.place_ty(cr, None, M.op_place(t["args"][0]), body)[0].idx) if M.op_place(t["args"][0]) is not None else "")):
                 overwrite.append("%s (l.%s)" % (p.split("::")[-1] if not into_map else "collect into IndexMap", t.get("ln")))
             if "group_by" in p or "chunk_by" in p or "dedup" in p:
@@ -284,6 +292,16 @@ def grouping(ctx, cr):
                 return [(("enum", ai.OPTION, 1, (("ref", ("X", "CHILD"), ()),)), mon.set(n=1)), (("enum", ai.OPTION, 0, ()), mon)]
             if p.endswith("IndexMap::entry") and len(args) == 2:
                 return [(("sym", "ENTRY"), mon.set(key=ai.fmt_val(a.resolve(st, args[1]), cr)))]
+            # the look-up-then-insert spelling of the same thing: insert is an append only where the key was just found absent
+            if (p.endswith("IndexMap::get_mut") or p.endswith("IndexMap::get")) and len(args) == 2:
+                return [(("enum", ai.OPTION, 1, (("ref", ("X", "SLOT"), ()),)), mon.set(present=True, key=ai.fmt_val(a.resolve(st, args[1]), cr))),
+                        (("enum", ai.OPTION, 0, ()), mon.set(present=False, key=ai.fmt_val(a.resolve(st, args[1]), cr)))]
+            if p.endswith("IndexMap::contains_key") and len(args) == 2:
+                return [(("bool", True), mon.set(present=True, key=ai.fmt_val(a.resolve(st, args[1]), cr))), (("bool", False), mon.set(present=False, key=ai.fmt_val(a.resolve(st, args[1]), cr)))]
+            if (p.endswith("IndexMap::insert") or p.endswith("IndexMap::insert_full")) and len(args) == 3:
+                if mon.get("present") is False:
+                    return [(a.sym(st, a.site(st, ":old")), mon.set(pushed=(mon.get("pushed") or 0) + 1, what=ai.fmt_val(a.deep(st, args[2]) if hasattr(a, "deep") else a.resolve(st, args[2]), cr)))]
+                return [(a.sym(st, a.site(st, ":old")), mon.set(overwrote=True))]
             if p.endswith("Entry::or_default") or p.endswith("Entry::or_insert") or p.endswith("Entry::or_insert_with"):
                 return [(("ref", ("X", "SLOT"), ()), mon)]
             if p == "std::vec::Vec::push" and args:
@@ -314,6 +332,8 @@ def grouping(ctx, cr):
         if not mon.get("n"):
             continue
         rt, pushed = mon.get("rt"), mon.get("pushed") or 0
+        if mon.get("overwrote"):
+            bad.append("an entry of the map is overwritten by insert on a path where the name may already be present")
         if rt == "RuleCheck":
             if pushed != 1:
                 bad.append("a RuleCheck child is appended %d times" % pushed)
